@@ -126,6 +126,12 @@ func (br *Reader) Read() (*sam.Record, error) {
 	if err != nil {
 		return nil, err
 	}
+	if br.c != nil && vOffset(br.lastChunk.Begin) >= vOffset(br.c.End) {
+		// The end of the chunk was given as the start of the
+		// block following the one the previous record ended
+		// in; the record just read starts at or after it.
+		return nil, io.EOF
+	}
 
 	var rec sam.Record
 	refID := b.readInt32()
